@@ -257,6 +257,12 @@ def gen_floats(ctx):
         ops.append((f"f32 {b | (1 << 31)}", "f32", None))
     for _ in range(4000 if quick else 2000000):
         ops.append((f"f32 {rng.getrandbits(32)}", "f32", None))
+    # regression corpus: patterns on which a past (seeded) defect manifested
+    cf = VERIF / "corpus" / "C34" / "float32_hard.txt"
+    if cf.exists():
+        for line in cf.read_text().splitlines():
+            if line.strip() and not line.startswith("#"):
+                ops.append((f"f32 {int(line.strip())}", "f32", None))
     return ops
 
 
